@@ -34,6 +34,7 @@ type C05Case struct {
 func genC05(t *rapid.T) C05Case {
 	lim := tierLimits()
 	blocks, f := genStateBlocks(t, lim)
+	addPrunes(t, blocks)
 	c := C05Case{Blocks: blocks}
 	full, part := genMapCfg(t, "full"), genMapCfg(t, "part")
 	full.Full, part.Full = true, false
@@ -301,7 +302,20 @@ func runC05(c C05Case) *Result {
 			return nil
 		},
 		func() error {
-			if len(encH) > 0 {
+			needVerify := len(encH) > 0
+			if needVerify && mpart.Cfg.Direct {
+				// a wallet that already remembers every deleted leaf applies the block directly
+				needVerify = false
+				for _, h := range encH {
+					if _, ok := mpart.M.CachedLeaves.Get(h); !ok {
+						needVerify = true
+					}
+				}
+				if !needVerify {
+					res.class("partial-modify-without-verify")
+				}
+			}
+			if needVerify {
 				if err := mpart.M.Verify(cpH(encH), cpP(enc), true); err != nil {
 					return fmt.Errorf("partial %s Verify(remember) rejects a block that Verify accepts (%s encoding)%s: %v", mpart.Cfg, c.Enc, shared, err)
 				}
